@@ -578,6 +578,15 @@ def _borrowed(modname, fname):
     return run
 
 
+
+def rids_wire_ids_derive_both(ctx):
+    """`carrying its own id`: the id a reply echoes is the id the message carried only if ids are read and written by the
+    derived, mirror-image impls (a hand-written reader that maps -1 to 18446744073709551615 also turns a message that
+    must be rejected into a call)"""
+    from .common import wire_ids_derive_both
+    wire_ids_derive_both(ctx, "C01.IDS")
+
+
 # "answered with the handler's result for exactly those params, or -32602": the params decoders (C16); "the standard error of
 # its failure class" and "exactly one well-formed response object (jsonrpc, id, exactly one of result/error)": the code
 # tables and the response serialiser (C15)
@@ -722,7 +731,7 @@ def control_hand_driven(ctx):
 CONTROLS = [control_hand_driven]
 
 
-RULES = [r1_id_echo, r1b_handler_args, r2_classify_once, r3_ws_reply_once, r4_invocation_authority, r5_failure_classes, r6_transport_agreement, r7_whole_message, r8_classifiers_are_plain, r9_params_whitespace, r10_not_found_iff_unbound, r11_no_borrowed_wire_strings, r12_entry_points_agree, r13_subscription_kind_is_sent_by_its_creator, r14_every_data_message_reaches_the_task] + BORROWED
+RULES = [r1_id_echo, r1b_handler_args, r2_classify_once, r3_ws_reply_once, r4_invocation_authority, r5_failure_classes, r6_transport_agreement, r7_whole_message, r8_classifiers_are_plain, r9_params_whitespace, r10_not_found_iff_unbound, r11_no_borrowed_wire_strings, r12_entry_points_agree, r13_subscription_kind_is_sent_by_its_creator, r14_every_data_message_reaches_the_task, rids_wire_ids_derive_both] + BORROWED
 
 LEVEL_TEXT = (
     "Structural necessary conditions of the request/reply contract decided from the type-checked program for every "
